@@ -507,6 +507,8 @@ _HIERARCHY_COUNTER = [0]
 
 def fresh_slot_hierarchy(mixin):
     """Three new user classes Base(mixin) <- Sub(Base) <- SubSub(Sub), each adding a slot of its own ('name', 'extra', 'more').
+    Base also declares a PRIVATE slot ('__secret', mangled with Base's name) and - where the mixin leaves room for it -
+    '__weakref__', the documented way to keep a slotted class weakly referenceable.
     They are registered in this module under unique names, so pickle can find them; release_hierarchy() removes them again."""
     import sys
 
@@ -516,6 +518,7 @@ def fresh_slot_hierarchy(mixin):
 
     def init(self, name=None, parent=None):
         self.name = name
+        setattr(self, "_Hier0_%d__secret" % tag, ["secret of", name])
         self.parent = parent
 
     def rep(self):
@@ -525,7 +528,10 @@ def fresh_slot_hierarchy(mixin):
     base = mixin
     for level, slot in enumerate(("name", "extra", "more")):
         name = "Hier%d_%d" % (level, tag)
-        body = {"__slots__": (slot,), "__module__": __name__, "__qualname__": name, "_vf_hierarchy": level}
+        slots = (slot,)
+        if level == 0:
+            slots = (slot, "__secret") + (("__weakref__",) if mixin is LightNodeMixin else ())
+        body = {"__slots__": slots, "__module__": __name__, "__qualname__": name, "_vf_hierarchy": level}
         if level == 0:
             body["__init__"] = init
             body["__repr__"] = rep
@@ -553,9 +559,10 @@ def own_slots(node):
             continue
         slots = cls.__dict__.get("__slots__", ())
         for slot in [slots] if isinstance(slots, str) else slots:
-            if slot in ("__dict__", "__weakref__") or slot.startswith("__"):
+            if slot in ("__dict__", "__weakref__"):
                 continue
-            out.append(("slot:" + slot, getattr(node, slot, "<unset>")))
+            attr = "_%s%s" % (cls.__name__.lstrip("_"), slot) if slot.startswith("__") and not slot.endswith("__") else slot
+            out.append(("slot:" + slot, getattr(node, attr, "<unset>")))
     return out
 
 
